@@ -167,8 +167,31 @@ theorem term_eq_implies_eq_partial : ∀ a b, Denotes a → Denotes b → a.term
 theorem denotes_cases :
     (∀ dt s l, mkLex dt s false = some l → Denotes l) ∧
     (∀ dt s l, ExactBack dt = true → mkLex dt s true = some l → Denotes l) ∧
-    (∀ v l, Supported v → (∀ n c e, v ≠ .dec n c e) → mkValue v none = some l → Denotes l) :=
-  ⟨fun _ _ _ => denotes_mkLex_false, fun _ _ _ => denotes_mkLex_true, fun _ _ => denotes_mkValue⟩
+    (∀ v l, Supported v → (∀ n c e, v ≠ .dec n c e) → mkValue v none = some l → Denotes l) ∧
+    (∀ old d, Denotes (mkFromLit old (some d))) ∧
+    (∀ old, Denotes old → Denotes (mkFromLit old none)) :=
+  ⟨fun _ _ _ => denotes_mkLex_false, fun _ _ _ => denotes_mkLex_true, fun _ _ => denotes_mkValue,
+    denotes_mkFromLit_some, fun _ => denotes_mkFromLit_none⟩
+
+/-! ## 4b. literals made from literals (first branch of `__new__`) -/
+
+/-- `Literal(old, datatype=d)` is `Literal(str(old), datatype=d, normalize=False)` with `ill_typed = None`:
+    same lexical form (white-space facet applied), same datatype, same value — so the value clauses of §2
+    carry over to re-typed literals, and (`denotes_cases`) a re-typed literal is `eq` to every term-equal one. -/
+def Statement_retype_is_lex : Prop :=
+  ∀ (old : Lit) (d : Dt), ∃ l, mkLex (some d) old.lex false = some l ∧
+    (mkFromLit old (some d)).lex = l.lex ∧ (mkFromLit old (some d)).dt = l.dt ∧
+    (mkFromLit old (some d)).value = l.value ∧ (mkFromLit old (some d)).ill = none
+
+theorem retype_is_lex : Statement_retype_is_lex :=
+  fun old d => ⟨_, mkFromLit_some_eq_mkLex old d, rfl, rfl, rfl, rfl⟩
+
+/-- `Literal(old)` of a built literal is the same term with the same value (`ill_typed` is not copied) -/
+def Statement_copy_same : Prop :=
+  ∀ old, Built old → (mkFromLit old none).lex = old.lex ∧ (mkFromLit old none).dt = old.dt ∧
+    (mkFromLit old none).value = old.value
+
+theorem copy_same : Statement_copy_same := copy_same_of_built
 
 /-! ## 5. durations: the repo-owned printer and parser -/
 
@@ -305,10 +328,10 @@ example : durationIso (-2) 10 (-273906700000) true = some "-P1Y2M3DT4H5M6.7S".to
 example : Spec.validLex .unsignedByte "+0255".toList = true ∧ Covered .unsignedByte = true := by decide
 example : Spec.validLex .decimal "-.50".toList = true ∧ Covered .decimal = true := by decide
 example : ∃ l, mkLex (some .integer) ['-', '0'] true = some l ∧ l.lex = ['0'] ∧ Built l :=
-  ⟨⟨['0'], some .integer, some (.int 0), some false⟩, by decide, rfl, Or.inl ⟨some .integer, ['-', '0'], true, by decide⟩⟩
+  ⟨⟨['0'], some .integer, some (.int 0), some false⟩, by decide, rfl, Built.lex (dt := some .integer) (s := ['-', '0']) (nz := true) (by decide)⟩
 example : ∃ l n1, Built l ∧ l.normalize = some n1 ∧ n1.lex ≠ l.lex :=
   ⟨⟨['0', 'F'], some .hexBinary, some (.bytes [15]), some false⟩, ⟨['0', 'f'], some .hexBinary, some (.bytes [15]), some false⟩,
-    Or.inl ⟨some .hexBinary, ['0', 'F'], false, by decide⟩, by decide, by decide⟩
+    Built.lex (dt := some .hexBinary) (s := ['0', 'F']) (nz := false) (by decide), by decide, by decide⟩
 example : ∃ a b, Denotes a ∧ Denotes b ∧ a.termEq b = true ∧ a.lex = ['1', '2'] :=
   ⟨⟨['1', '2'], some .integer, some (.int 12), some false⟩, ⟨['1', '2'], some .integer, some (.int 12), none⟩,
     denotes_mkLex_true (dt := some .integer) (s := ['+', '0', '1', '2']) rfl (by decide),
